@@ -1,0 +1,666 @@
+//go:build verif
+
+// Contracts for the fvc verification-condition generator in /verif (comment-only file).
+//
+// C18, part 3: the configuration state. Every setter of Request and Client says exactly which part of the
+// configuration it sets (ensures) and that it leaves everything else alone (modifies = checked frame).
+// The assembly functions of hooks.go (zz_contracts_verif.go, part 2) read exactly this state.
+
+package client
+
+//@ props C18
+
+// ---------------------------------------------------------------------------------------------
+// Request: scalar fields
+// ---------------------------------------------------------------------------------------------
+
+//@ func (*Request).SetMethod
+//@   modifies r.method
+//@   ensures sets-method: r.method == method && result == r
+//@ func (*Request).SetURL
+//@   modifies r.url
+//@   ensures sets-url: r.url == url && result == r
+//@ func (*Request).SetUserAgent
+//@   modifies r.userAgent
+//@   ensures sets-user-agent: r.userAgent == ua && result == r
+//@ func (*Request).SetReferer
+//@   modifies r.referer
+//@   ensures sets-referer: r.referer == referer && result == r
+//@ func (*Request).SetBoundary
+//@   modifies r.boundary
+//@   ensures sets-boundary: r.boundary == b && result == r
+//@ func (*Request).SetTimeout
+//@   modifies r.timeout
+//@   ensures sets-timeout: r.timeout == t && result == r
+//@ func (*Request).SetMaxRedirects
+//@   modifies r.maxRedirects
+//@   ensures sets-max-redirects: r.maxRedirects == count && result == r
+//@ func (*Request).SetContext
+//@   modifies r.ctx
+//@   ensures sets-context: r.ctx == ctx && result == r
+
+// Body: the value and its kind are set together; the kind decides how parserRequestBody encodes the value.
+//@ func (*Request).SetJSON
+//@   modifies r.body, r.bodyType
+//@   ensures json-body: r.body == v && r.bodyType == jsonBody && result == r
+//@ func (*Request).SetXML
+//@   modifies r.body, r.bodyType
+//@   ensures xml-body: r.body == v && r.bodyType == xmlBody && result == r
+//@ func (*Request).SetCBOR
+//@   modifies r.body, r.bodyType
+//@   ensures cbor-body: r.body == v && r.bodyType == cborBody && result == r
+//@ func (*Request).SetRawBody
+//@   modifies r.body, r.bodyType
+// (ENGINE LIMITATION: a []byte boxed into `any` loses its identity - the type name []byte is not expressible in typeis/unbox
+// either -, so that the stored value IS v cannot be stated; the kind and the frame are checked.)
+//@   ensures raw-body-kind: r.bodyType == rawBody && result == r
+
+// resetBody(t): form data never demotes a files body (the files are sent together with the form fields).
+//@ func (*Request).resetBody
+//@   modifies r.body, r.bodyType
+//@   ensures value-dropped: r.body == nil
+//@   ensures kind-set-files-win-over-form: r.bodyType == ite(old(r.bodyType) == filesBody && t == formBody, filesBody, t)
+
+// ---------------------------------------------------------------------------------------------
+// Cookie / PathParam: Go maps name -> value
+// ---------------------------------------------------------------------------------------------
+// Both are map[string]string, i.e. they live in the same map heaps. A write to one map must leave every
+// other map alone - in particular the path parameters when a cookie is set and vice versa. The frame of a
+// map write is therefore an ensures clause over ALL maps of that type: `asMap(c, o)` is the bound reference
+// o seen with the Go type of c (ite(false, c, o) is o; the engine types an ite by its first branch).
+//@ macro asMap(mp_, o_) = ite(false, mp_, o_)
+//@ macro otherMapsKept(mp_) = forallI(o_, o_ != mp_ ==> forallS(k_, indom(asMap(mp_, o_), k_) == old(indom(asMap(mp_, o_), k_)) && asMap(mp_, o_)[k_] == old(asMap(mp_, o_)[k_])))
+//@ macro otherKeysKept(mp_, key_) = forallS(k_, k_ != key_ ==> indom(mp_, k_) == old(indom(mp_, k_)) && mp_[k_] == old(mp_[k_]))
+
+//@ func (Cookie).SetCookie
+//@   requires map-made: c != nil
+//@   modifies heap(MD_string_string), heap(MV_string_string)
+//@   ensures cookie-set: indom(c, key) && c[key] == val
+//@   ensures other-cookies-kept: otherKeysKept(c, key)
+//@   ensures other-maps-untouched: otherMapsKept(c)
+//@ func (Cookie).Add
+//@   requires map-made: c != nil
+//@   modifies heap(MD_string_string), heap(MV_string_string)
+//@   ensures cookie-set: indom(c, key) && c[key] == val
+//@   ensures other-cookies-kept: otherKeysKept(c, key)
+//@   ensures other-maps-untouched: otherMapsKept(c)
+//@ func (Cookie).Del
+//@   modifies heap(MD_string_string)
+//@   ensures cookie-gone: !indom(c, key)
+//@   ensures other-cookies-kept: otherKeysKept(c, key)
+//@   ensures other-maps-untouched: otherMapsKept(c)
+
+// SetCookies(m): every entry of m is set, nothing else changes.
+//@ macro allSet(mp_, src_) = forallS(k_, old(indom(src_, k_)) ==> indom(mp_, k_) && mp_[k_] == old(src_[k_]))
+//@ macro restKept(mp_, src_) = forallS(k_, !old(indom(src_, k_)) ==> indom(mp_, k_) == old(indom(mp_, k_)) && mp_[k_] == old(mp_[k_]))
+//@ func (Cookie).SetCookies
+//@   requires map-made: c != nil
+//@   modifies heap(MD_string_string), heap(MV_string_string)
+//@   loop 1
+//@     invariant visited-set: forallS(k, seen(k) ==> indom(c, k) && c[k] == old(m[k]))
+//@     invariant unvisited-kept: forallS(k, !seen(k) || !old(indom(m, k)) ==> indom(c, k) == old(indom(c, k)) && c[k] == old(c[k]))
+//@     invariant source-kept: forallS(k, indom(m, k) == old(indom(m, k)) && m[k] == old(m[k]))
+//@     invariant other-maps-untouched: otherMapsKept(c)
+//@   ensures every-given-cookie-set: allSet(c, m)
+//@   ensures other-cookies-kept: restKept(c, m)
+//@   ensures other-maps-untouched: otherMapsKept(c)
+
+// DelCookies(keys...): exactly the named cookies are gone.
+//@ func (Cookie).DelCookies
+//@   modifies heap(MD_string_string)
+//@   loop 1
+//@     invariant index-in-range: rangeindex + 1 <= len(key)
+//@     invariant named-gone: forall(i, 0, rangeindex + 1, !indom(c, key[i]))
+//@     invariant rest-kept: forallS(k, indom(c, k) ==> old(indom(c, k))) && forallS(k, old(indom(c, k)) && !indom(c, k) ==> exists(i, 0, rangeindex + 1, key[i] == k))
+//@     invariant values-kept: forallS(k, c[k] == old(c[k]))
+//@     invariant other-maps-untouched: otherMapsKept(c)
+//@   ensures named-gone: forall(i, 0, len(key), !indom(c, key[i]))
+//@   ensures only-named-removed: forallS(k, indom(c, k) ==> old(indom(c, k))) && forallS(k, old(indom(c, k)) && !indom(c, k) ==> exists(i, 0, len(key), key[i] == k))
+//@   ensures values-kept: forallS(k, c[k] == old(c[k]))
+//@   ensures other-maps-untouched: otherMapsKept(c)
+
+// Reset(): the map is empty afterwards (the object stays: the Request keeps pointing at it).
+//@ func (Cookie).Reset
+//@   modifies heap(MD_string_string)
+//@   loop 1
+//@     invariant visited-gone: forallS(k, seen(k) ==> !indom(c, k))
+//@     invariant nothing-added: forallS(k, indom(c, k) ==> old(indom(c, k)))
+//@     invariant other-maps-untouched: otherMapsKept(c)
+//@   ensures empty: forallS(k, !indom(c, k))
+//@   ensures other-maps-untouched: otherMapsKept(c)
+
+// PathParam: the same shapes.
+//@ func (PathParam).Add
+//@   requires map-made: p != nil
+//@   modifies heap(MD_string_string), heap(MV_string_string)
+//@   ensures param-set: indom(p, key) && p[key] == val
+//@   ensures other-params-kept: otherKeysKept(p, key)
+//@   ensures other-maps-untouched: otherMapsKept(p)
+//@ func (PathParam).SetParam
+//@   requires map-made: p != nil
+//@   modifies heap(MD_string_string), heap(MV_string_string)
+//@   ensures param-set: indom(p, key) && p[key] == val
+//@   ensures other-params-kept: otherKeysKept(p, key)
+//@   ensures other-maps-untouched: otherMapsKept(p)
+//@ func (PathParam).Del
+//@   modifies heap(MD_string_string)
+//@   ensures param-gone: !indom(p, key)
+//@   ensures other-params-kept: otherKeysKept(p, key)
+//@   ensures other-maps-untouched: otherMapsKept(p)
+//@ func (PathParam).SetParams
+//@   requires map-made: p != nil
+//@   modifies heap(MD_string_string), heap(MV_string_string)
+//@   loop 1
+//@     invariant visited-set: forallS(k, seen(k) ==> indom(p, k) && p[k] == old(m[k]))
+//@     invariant unvisited-kept: forallS(k, !seen(k) || !old(indom(m, k)) ==> indom(p, k) == old(indom(p, k)) && p[k] == old(p[k]))
+//@     invariant source-kept: forallS(k, indom(m, k) == old(indom(m, k)) && m[k] == old(m[k]))
+//@     invariant other-maps-untouched: otherMapsKept(p)
+//@   ensures every-given-param-set: allSet(p, m)
+//@   ensures other-params-kept: restKept(p, m)
+//@   ensures other-maps-untouched: otherMapsKept(p)
+//@ func (PathParam).DelParams
+//@   modifies heap(MD_string_string)
+//@   loop 1
+//@     invariant index-in-range: rangeindex + 1 <= len(key)
+//@     invariant named-gone: forall(i, 0, rangeindex + 1, !indom(p, key[i]))
+//@     invariant rest-kept: forallS(k, indom(p, k) ==> old(indom(p, k))) && forallS(k, old(indom(p, k)) && !indom(p, k) ==> exists(i, 0, rangeindex + 1, key[i] == k))
+//@     invariant values-kept: forallS(k, p[k] == old(p[k]))
+//@     invariant other-maps-untouched: otherMapsKept(p)
+//@   ensures named-gone: forall(i, 0, len(key), !indom(p, key[i]))
+//@   ensures only-named-removed: forallS(k, indom(p, k) ==> old(indom(p, k))) && forallS(k, old(indom(p, k)) && !indom(p, k) ==> exists(i, 0, len(key), key[i] == k))
+//@   ensures values-kept: forallS(k, p[k] == old(p[k]))
+//@   ensures other-maps-untouched: otherMapsKept(p)
+//@ func (PathParam).Reset
+//@   modifies heap(MD_string_string)
+//@   loop 1
+//@     invariant visited-gone: forallS(k, seen(k) ==> !indom(p, k))
+//@     invariant nothing-added: forallS(k, indom(p, k) ==> old(indom(p, k)))
+//@     invariant other-maps-untouched: otherMapsKept(p)
+//@   ensures empty: forallS(k, !indom(p, k))
+//@   ensures other-maps-untouched: otherMapsKept(p)
+
+// ---------------------------------------------------------------------------------------------
+// Request / Client: cookies and path parameters (each level has its own two maps)
+// ---------------------------------------------------------------------------------------------
+// A Request (Client) made by AcquireRequest (NewWithClient) owns a cookie map and a path-parameter map.
+//@ macro hasMaps(x_) = x_.cookies != nil && *x_.cookies != nil && x_.path != nil && *x_.path != nil
+
+//@ func (*Request).SetCookie
+//@   requires request-made: hasMaps(r)
+//@   modifies heap(MD_string_string), heap(MV_string_string)
+//@   ensures cookie-set: indom(*r.cookies, key) && (*r.cookies)[key] == val && result == r
+//@   ensures other-cookies-kept: otherKeysKept(*r.cookies, key)
+//@   ensures nothing-else-touched: otherMapsKept(*r.cookies)
+//@ func (*Request).SetCookies
+//@   requires request-made: hasMaps(r)
+//@   modifies heap(MD_string_string), heap(MV_string_string)
+//@   ensures every-given-cookie-set: allSet(*r.cookies, m) && result == r
+//@   ensures other-cookies-kept: restKept(*r.cookies, m)
+//@   ensures nothing-else-touched: otherMapsKept(*r.cookies)
+//@ func (*Request).DelCookies
+//@   requires request-made: hasMaps(r)
+//@   modifies heap(MD_string_string)
+//@   ensures named-gone: forall(i, 0, len(key), !indom(*r.cookies, key[i])) && result == r
+//@   ensures only-named-removed: forallS(k, indom(*r.cookies, k) ==> old(indom(*r.cookies, k))) && forallS(k, old(indom(*r.cookies, k)) && !indom(*r.cookies, k) ==> exists(i, 0, len(key), key[i] == k))
+//@   ensures values-kept: forallS(k, (*r.cookies)[k] == old((*r.cookies)[k]))
+//@   ensures nothing-else-touched: otherMapsKept(*r.cookies)
+//@ func (*Request).SetPathParam
+//@   requires request-made: hasMaps(r)
+//@   modifies heap(MD_string_string), heap(MV_string_string)
+//@   ensures param-set: indom(*r.path, key) && (*r.path)[key] == val && result == r
+//@   ensures other-params-kept: otherKeysKept(*r.path, key)
+//@   ensures nothing-else-touched: otherMapsKept(*r.path)
+//@ func (*Request).SetPathParams
+//@   requires request-made: hasMaps(r)
+//@   modifies heap(MD_string_string), heap(MV_string_string)
+//@   ensures every-given-param-set: allSet(*r.path, m) && result == r
+//@   ensures other-params-kept: restKept(*r.path, m)
+//@   ensures nothing-else-touched: otherMapsKept(*r.path)
+//@ func (*Request).DelPathParams
+//@   requires request-made: hasMaps(r)
+//@   modifies heap(MD_string_string)
+//@   ensures named-gone: forall(i, 0, len(key), !indom(*r.path, key[i])) && result == r
+//@   ensures only-named-removed: forallS(k, indom(*r.path, k) ==> old(indom(*r.path, k))) && forallS(k, old(indom(*r.path, k)) && !indom(*r.path, k) ==> exists(i, 0, len(key), key[i] == k))
+//@   ensures values-kept: forallS(k, (*r.path)[k] == old((*r.path)[k]))
+//@   ensures nothing-else-touched: otherMapsKept(*r.path)
+//@ func (*Request).ResetPathParams
+//@   requires request-made: hasMaps(r)
+//@   modifies heap(MD_string_string)
+//@   ensures empty: forallS(k, !indom(*r.path, k)) && result == r
+//@   ensures nothing-else-touched: otherMapsKept(*r.path)
+
+// Client level: the twins.
+//@ func (*Client).SetCookie
+//@   requires client-made: hasMaps(c)
+//@   modifies heap(MD_string_string), heap(MV_string_string)
+//@   ensures cookie-set: indom(*c.cookies, key) && (*c.cookies)[key] == val && result == c
+//@   ensures other-cookies-kept: otherKeysKept(*c.cookies, key)
+//@   ensures nothing-else-touched: otherMapsKept(*c.cookies)
+//@ func (*Client).SetCookies
+//@   requires client-made: hasMaps(c)
+//@   modifies heap(MD_string_string), heap(MV_string_string)
+//@   ensures every-given-cookie-set: allSet(*c.cookies, m) && result == c
+//@   ensures other-cookies-kept: restKept(*c.cookies, m)
+//@   ensures nothing-else-touched: otherMapsKept(*c.cookies)
+//@ func (*Client).DelCookies
+//@   requires client-made: hasMaps(c)
+//@   modifies heap(MD_string_string)
+//@   ensures named-gone: forall(i, 0, len(key), !indom(*c.cookies, key[i])) && result == c
+//@   ensures only-named-removed: forallS(k, indom(*c.cookies, k) ==> old(indom(*c.cookies, k))) && forallS(k, old(indom(*c.cookies, k)) && !indom(*c.cookies, k) ==> exists(i, 0, len(key), key[i] == k))
+//@   ensures values-kept: forallS(k, (*c.cookies)[k] == old((*c.cookies)[k]))
+//@   ensures nothing-else-touched: otherMapsKept(*c.cookies)
+//@ func (*Client).SetPathParam
+//@   requires client-made: hasMaps(c)
+//@   modifies heap(MD_string_string), heap(MV_string_string)
+//@   ensures param-set: indom(*c.path, key) && (*c.path)[key] == val && result == c
+//@   ensures other-params-kept: otherKeysKept(*c.path, key)
+//@   ensures nothing-else-touched: otherMapsKept(*c.path)
+//@ func (*Client).SetPathParams
+//@   requires client-made: hasMaps(c)
+//@   modifies heap(MD_string_string), heap(MV_string_string)
+//@   ensures every-given-param-set: allSet(*c.path, m) && result == c
+//@   ensures other-params-kept: restKept(*c.path, m)
+//@   ensures nothing-else-touched: otherMapsKept(*c.path)
+//@ func (*Client).DelPathParams
+//@   requires client-made: hasMaps(c)
+//@   modifies heap(MD_string_string)
+//@   ensures named-gone: forall(i, 0, len(key), !indom(*c.path, key[i])) && result == c
+//@   ensures only-named-removed: forallS(k, indom(*c.path, k) ==> old(indom(*c.path, k))) && forallS(k, old(indom(*c.path, k)) && !indom(*c.path, k) ==> exists(i, 0, len(key), key[i] == k))
+//@   ensures values-kept: forallS(k, (*c.path)[k] == old((*c.path)[k]))
+//@   ensures nothing-else-touched: otherMapsKept(*c.path)
+
+// Client: scalar fields.
+//@ func (*Client).SetUserAgent
+//@   modifies c.userAgent
+//@   ensures sets-user-agent: c.userAgent == ua && result == c
+//@ func (*Client).SetReferer
+//@   modifies c.referer
+//@   ensures sets-referer: c.referer == r && result == c
+//@ func (*Client).SetTimeout
+//@   modifies c.timeout
+//@   ensures sets-timeout: c.timeout == t && result == c
+//@ func (*Client).SetBaseURL
+//@   modifies c.baseURL
+//@   ensures sets-base-url: c.baseURL == url && result == c
+//@ func (*Client).SetCookieJar
+//@   modifies c.cookieJar
+//@   ensures sets-jar: c.cookieJar == cookieJar && result == c
+//@ func (*Client).SetJSONMarshal
+//@   modifies c.jsonMarshal
+//@   ensures sets-json-marshal: c.jsonMarshal == f && result == c
+//@ func (*Client).SetXMLMarshal
+//@   modifies c.xmlMarshal
+//@   ensures sets-xml-marshal: c.xmlMarshal == f && result == c
+//@ func (*Client).SetCBORMarshal
+//@   modifies c.cborMarshal
+//@   ensures sets-cbor-marshal: c.cborMarshal == f && result == c
+
+// ---------------------------------------------------------------------------------------------
+// Headers (rhLine: the lines a fasthttp.RequestHeader object holds, names normalised by hnorm; mw_C18.spec)
+// ---------------------------------------------------------------------------------------------
+//@ macro hdrOnly(h_, k_, v_) = forallS(w_, rhLine[h_][hnorm(k_)][w_] == (w_ == v_))
+//@ macro hdrOthersKept(h_, k_) = forallS(n_, n_ != hnorm(k_) ==> rhLine[h_][n_] == old(rhLine[h_][n_])) && forallI(o_, o_ != h_ ==> rhLine[o_] == old(rhLine[o_]))
+
+// AddHeader: one more line; nothing replaced, nothing dropped.
+//@ func (*Request).AddHeader
+//@   modifies rhLine
+//@   ensures header-line-added: lineIn(r.header.RequestHeader, key, val) && result == r
+//@   ensures no-line-dropped: noLineDropped()
+//@   ensures nothing-else-added: onlyLineAdded(r.header.RequestHeader, key, val)
+// SetHeader: afterwards the name has exactly this one value; other names and other header objects are untouched.
+//@ func (*Request).SetHeader
+//@   modifies rhLine, rqHdrHas
+//@   ensures header-has-exactly-this-value: hdrOnly(r.header.RequestHeader, key, val) && result == r
+//@   ensures other-headers-kept: hdrOthersKept(r.header.RequestHeader, key)
+//@ func (*Client).AddHeader
+//@   modifies rhLine
+//@   ensures header-line-added: lineIn(c.header.RequestHeader, key, val) && result == c
+//@   ensures no-line-dropped: noLineDropped()
+//@   ensures nothing-else-added: onlyLineAdded(c.header.RequestHeader, key, val)
+//@ func (*Client).SetHeader
+//@   modifies rhLine
+//@   ensures header-has-exactly-this-value: hdrOnly(c.header.RequestHeader, key, val) && result == c
+//@   ensures other-headers-kept: hdrOthersKept(c.header.RequestHeader, key)
+
+// SetHeaders(map): every given name has exactly its given value afterwards - for a name that the map gives once
+// (header names are compared after normalisation: a map holding both "x-a" and "X-A" names one header twice,
+// and which value survives depends on the map iteration order; such a name is excluded, see hdrKeyAlone).
+//@ macro hdrKeyAlone(m_, k_) = forallS(j_, indom(m_, j_) && j_ != k_ ==> hnorm(j_) != hnorm(k_))
+//@ func (*Header).SetHeaders
+//@   modifies rhLine, rqHdrHas
+//@   loop 1
+//@     invariant visited-are-keys: forallS(k, seen(k) ==> indom(r, k))
+//@     invariant visited-set: forallS(k, seen(k) && hdrKeyAlone(r, k) ==> hdrOnly(h.RequestHeader, k, r[k]))
+//@     invariant names-not-visited-kept: forallS(n, forallS(j, seen(j) ==> hnorm(j) != n) ==> rhLine[h.RequestHeader][n] == old(rhLine[h.RequestHeader][n]))
+//@     invariant other-objects-kept: forallI(o, o != h.RequestHeader ==> rhLine[o] == old(rhLine[o]))
+//@   ensures every-given-header-set: forallS(k, indom(r, k) && hdrKeyAlone(r, k) ==> hdrOnly(h.RequestHeader, k, r[k]))
+//@   ensures names-not-given-kept: forallS(n, forallS(j, indom(r, j) ==> hnorm(j) != n) ==> rhLine[h.RequestHeader][n] == old(rhLine[h.RequestHeader][n]))
+//@   ensures other-objects-kept: forallI(o, o != h.RequestHeader ==> rhLine[o] == old(rhLine[o]))
+//@ func (*Request).SetHeaders
+//@   modifies rhLine, rqHdrHas
+//@   ensures every-given-header-set: forallS(k, indom(h, k) && hdrKeyAlone(h, k) ==> hdrOnly(r.header.RequestHeader, k, h[k])) && result == r
+//@   ensures names-not-given-kept: forallS(n, forallS(j, indom(h, j) ==> hnorm(j) != n) ==> rhLine[r.header.RequestHeader][n] == old(rhLine[r.header.RequestHeader][n]))
+//@   ensures other-objects-kept: forallI(o, o != r.header.RequestHeader ==> rhLine[o] == old(rhLine[o]))
+//@ func (*Client).SetHeaders
+//@   modifies rhLine, rqHdrHas
+//@   ensures every-given-header-set: forallS(k, indom(h, k) && hdrKeyAlone(h, k) ==> hdrOnly(c.header.RequestHeader, k, h[k])) && result == c
+//@   ensures names-not-given-kept: forallS(n, forallS(j, indom(h, j) ==> hnorm(j) != n) ==> rhLine[c.header.RequestHeader][n] == old(rhLine[c.header.RequestHeader][n]))
+//@   ensures other-objects-kept: forallI(o, o != c.header.RequestHeader ==> rhLine[o] == old(rhLine[o]))
+
+// AddHeaders(map name -> values): every given value is added as a line of its name; no line is dropped or replaced.
+//@ macro valuesAdded(h_, k_, vs_) = forall(i_, 0, len(vs_), lineIn(h_, k_, vs_[i_]))
+//@ func (*Header).AddHeaders
+//@   modifies rhLine
+//@   loop 1
+//@     invariant visited-added: forallS(k, seen(k) ==> valuesAdded(h.RequestHeader, k, r[k]))
+//@     invariant no-line-dropped: noLineDropped()
+//@     invariant other-objects-kept: forallI(o, o != h.RequestHeader ==> rhLine[o] == old(rhLine[o]))
+//@   loop 2
+//@     invariant index-in-range: rangeindex + 1 <= len(v)
+//@     invariant earlier-names-added: forallS(j, seen(j) && j != k ==> valuesAdded(h.RequestHeader, j, r[j]))
+//@     invariant values-so-far-added: forall(i, 0, rangeindex + 1, lineIn(h.RequestHeader, k, v[i]))
+//@     invariant no-line-dropped: noLineDropped()
+//@     invariant other-objects-kept: forallI(o, o != h.RequestHeader ==> rhLine[o] == old(rhLine[o]))
+//@   ensures every-given-value-added: forallS(k, indom(r, k) ==> valuesAdded(h.RequestHeader, k, r[k]))
+//@   ensures no-line-dropped: noLineDropped()
+//@   ensures other-objects-kept: forallI(o, o != h.RequestHeader ==> rhLine[o] == old(rhLine[o]))
+//@ func (*Request).AddHeaders
+//@   modifies rhLine
+//@   ensures every-given-value-added: forallS(k, indom(h, k) ==> valuesAdded(r.header.RequestHeader, k, h[k])) && result == r
+//@   ensures no-line-dropped: noLineDropped()
+//@   ensures other-objects-kept: forallI(o, o != r.header.RequestHeader ==> rhLine[o] == old(rhLine[o]))
+//@ func (*Client).AddHeaders
+//@   modifies rhLine
+//@   ensures every-given-value-added: forallS(k, indom(h, k) ==> valuesAdded(c.header.RequestHeader, k, h[k])) && result == c
+//@   ensures no-line-dropped: noLineDropped()
+//@   ensures other-objects-kept: forallI(o, o != c.header.RequestHeader ==> rhLine[o] == old(rhLine[o]))
+
+// ---------------------------------------------------------------------------------------------
+// Query parameters and form data (argHas: the pairs a fasthttp.Args object holds; mw_C18.spec)
+// ---------------------------------------------------------------------------------------------
+//@ macro argOnly(a_, k_, v_) = forallS(w_, argHas[a_][k_][w_] == (w_ == v_))
+//@ macro argOthersKept(a_, k_) = forallS(n_, n_ != k_ ==> argHas[a_][n_] == old(argHas[a_][n_])) && forallI(o_, o_ != a_ ==> argHas[o_] == old(argHas[o_]))
+//@ macro argObjectsKept(a_) = forallI(o_, o_ != a_ ==> argHas[o_] == old(argHas[o_]))
+//@ macro noArgDropped() = forallI(a_, forallS(k_, forallS(v_, old(argHas[a_][k_][v_]) ==> argHas[a_][k_][v_])))
+//@ macro onlyArgAdded(a_, k_, v_) = forallI(o_, forallS(n_, forallS(w_, argHas[o_][n_][w_] && !old(argHas[o_][n_][w_]) ==> o_ == a_ && n_ == k_ && w_ == v_)))
+//@ macro argValuesAdded(a_, k_, vs_) = forall(i_, 0, len(vs_), argHas[a_][k_][vs_[i_]])
+
+//@ func (*Request).AddParam
+//@   modifies argHas
+//@   ensures pair-added: argHas[r.params.Args][key][val] && result == r
+//@   ensures no-pair-dropped: noArgDropped()
+//@   ensures nothing-else-added: onlyArgAdded(r.params.Args, key, val)
+//@ func (*Request).SetParam
+//@   modifies argHas
+//@   ensures key-has-exactly-this-value: argOnly(r.params.Args, key, val) && result == r
+//@   ensures other-keys-kept: argOthersKept(r.params.Args, key)
+//@ func (*Client).AddParam
+//@   modifies argHas
+//@   ensures pair-added: argHas[c.params.Args][key][val] && result == c
+//@   ensures no-pair-dropped: noArgDropped()
+//@   ensures nothing-else-added: onlyArgAdded(c.params.Args, key, val)
+//@ func (*Client).SetParam
+//@   modifies argHas
+//@   ensures key-has-exactly-this-value: argOnly(c.params.Args, key, val) && result == c
+//@   ensures other-keys-kept: argOthersKept(c.params.Args, key)
+
+// SetParams(map): every given key has exactly its given value (Args keys are not normalised: distinct map keys
+// are distinct parameters), keys not given keep their pairs.
+//@ func (*QueryParam).SetParams
+//@   modifies argHas
+//@   loop 1
+//@     invariant visited-are-keys: forallS(k, seen(k) ==> indom(r, k))
+//@     invariant visited-set: forallS(k, seen(k) ==> argOnly(p.Args, k, r[k]))
+//@     invariant unvisited-kept: forallS(n, !seen(n) ==> argHas[p.Args][n] == old(argHas[p.Args][n]))
+//@     invariant other-objects-kept: argObjectsKept(p.Args)
+//@   ensures every-given-param-set: forallS(k, indom(r, k) ==> argOnly(p.Args, k, r[k]))
+//@   ensures keys-not-given-kept: forallS(n, !indom(r, n) ==> argHas[p.Args][n] == old(argHas[p.Args][n]))
+//@   ensures other-objects-kept: argObjectsKept(p.Args)
+//@ func (*QueryParam).AddParams
+//@   modifies argHas
+//@   loop 1
+//@     invariant visited-added: forallS(k, seen(k) ==> argValuesAdded(p.Args, k, r[k]))
+//@     invariant no-pair-dropped: noArgDropped()
+//@     invariant other-objects-kept: argObjectsKept(p.Args)
+//@   loop 2
+//@     invariant index-in-range: rangeindex + 1 <= len(v)
+//@     invariant earlier-keys-added: forallS(j, seen(j) && j != k ==> argValuesAdded(p.Args, j, r[j]))
+//@     invariant values-so-far-added: forall(i, 0, rangeindex + 1, argHas[p.Args][k][v[i]])
+//@     invariant no-pair-dropped: noArgDropped()
+//@     invariant other-objects-kept: argObjectsKept(p.Args)
+//@   ensures every-given-value-added: forallS(k, indom(r, k) ==> argValuesAdded(p.Args, k, r[k]))
+//@   ensures no-pair-dropped: noArgDropped()
+//@   ensures other-objects-kept: argObjectsKept(p.Args)
+//@ func (*Request).SetParams
+//@   modifies argHas
+//@   ensures every-given-param-set: forallS(k, indom(m, k) ==> argOnly(r.params.Args, k, m[k])) && result == r
+//@   ensures keys-not-given-kept: forallS(n, !indom(m, n) ==> argHas[r.params.Args][n] == old(argHas[r.params.Args][n]))
+//@   ensures other-objects-kept: argObjectsKept(r.params.Args)
+//@ func (*Request).AddParams
+//@   modifies argHas
+//@   ensures every-given-value-added: forallS(k, indom(m, k) ==> argValuesAdded(r.params.Args, k, m[k])) && result == r
+//@   ensures no-pair-dropped: noArgDropped()
+//@   ensures other-objects-kept: argObjectsKept(r.params.Args)
+//@ func (*Client).SetParams
+//@   modifies argHas
+//@   ensures every-given-param-set: forallS(k, indom(m, k) ==> argOnly(c.params.Args, k, m[k])) && result == c
+//@   ensures keys-not-given-kept: forallS(n, !indom(m, n) ==> argHas[c.params.Args][n] == old(argHas[c.params.Args][n]))
+//@   ensures other-objects-kept: argObjectsKept(c.params.Args)
+//@ func (*Client).AddParams
+//@   modifies argHas
+//@   ensures every-given-value-added: forallS(k, indom(m, k) ==> argValuesAdded(c.params.Args, k, m[k])) && result == c
+//@   ensures no-pair-dropped: noArgDropped()
+//@   ensures other-objects-kept: argObjectsKept(c.params.Args)
+
+// DelParams(keys...): the named keys have no pair left, the other keys keep theirs.
+//@ macro argNamedGone(a_, ks_, n_) = forall(i_, 0, n_, forallS(v_, !argHas[a_][ks_[i_]][v_]))
+//@ macro argUnnamedKept(a_, ks_, n_) = forallS(k_, forall(i_, 0, n_, ks_[i_] != k_) ==> argHas[a_][k_] == old(argHas[a_][k_]))
+//@ func (*Request).DelParams
+//@   modifies argHas
+//@   loop 1
+//@     invariant index-in-range: rangeindex + 1 <= len(key)
+//@     invariant named-gone: argNamedGone(r.params.Args, key, rangeindex + 1)
+//@     invariant unnamed-kept: argUnnamedKept(r.params.Args, key, rangeindex + 1)
+//@     invariant other-objects-kept: argObjectsKept(r.params.Args)
+//@   ensures named-gone: argNamedGone(r.params.Args, key, len(key)) && result == r
+//@   ensures unnamed-kept: argUnnamedKept(r.params.Args, key, len(key))
+//@   ensures other-objects-kept: argObjectsKept(r.params.Args)
+//@ func (*Client).DelParams
+//@   modifies argHas
+//@   loop 1
+//@     invariant index-in-range: rangeindex + 1 <= len(key)
+//@     invariant named-gone: argNamedGone(c.params.Args, key, rangeindex + 1)
+//@     invariant unnamed-kept: argUnnamedKept(c.params.Args, key, rangeindex + 1)
+//@     invariant other-objects-kept: argObjectsKept(c.params.Args)
+//@   ensures named-gone: argNamedGone(c.params.Args, key, len(key)) && result == c
+//@   ensures unnamed-kept: argUnnamedKept(c.params.Args, key, len(key))
+//@   ensures other-objects-kept: argObjectsKept(c.params.Args)
+
+// Form data: the same Args model; every Request-level form setter also switches the body kind to formBody
+// (unless files were added: resetBody) and drops a body value set before.
+//@ func (*FormData).Add
+//@   modifies argHas
+//@   ensures pair-added: argHas[f.Args][key][val]
+//@   ensures no-pair-dropped: noArgDropped()
+//@   ensures nothing-else-added: onlyArgAdded(f.Args, key, val)
+//@ func (*FormData).Set
+//@   modifies argHas
+//@   ensures key-has-exactly-this-value: argOnly(f.Args, key, val)
+//@   ensures other-keys-kept: argOthersKept(f.Args, key)
+//@ func (*FormData).Reset
+//@   modifies argHas
+//@   ensures empty: forallS(k, forallS(v, !argHas[f.Args][k][v]))
+//@   ensures other-objects-kept: argObjectsKept(f.Args)
+//@ func (*FormData).DelData
+//@   modifies argHas
+//@   loop 1
+//@     invariant index-in-range: rangeindex + 1 <= len(key)
+//@     invariant named-gone: argNamedGone(f.Args, key, rangeindex + 1)
+//@     invariant unnamed-kept: argUnnamedKept(f.Args, key, rangeindex + 1)
+//@     invariant other-objects-kept: argObjectsKept(f.Args)
+//@   ensures named-gone: argNamedGone(f.Args, key, len(key))
+//@   ensures unnamed-kept: argUnnamedKept(f.Args, key, len(key))
+//@   ensures other-objects-kept: argObjectsKept(f.Args)
+//@ func (*FormData).SetWithMap
+//@   modifies argHas
+//@   loop 1
+//@     invariant visited-are-keys: forallS(k, seen(k) ==> indom(m, k))
+//@     invariant visited-set: forallS(k, seen(k) ==> argOnly(f.Args, k, m[k]))
+//@     invariant unvisited-kept: forallS(n, !seen(n) ==> argHas[f.Args][n] == old(argHas[f.Args][n]))
+//@     invariant other-objects-kept: argObjectsKept(f.Args)
+//@   ensures every-given-field-set: forallS(k, indom(m, k) ==> argOnly(f.Args, k, m[k]))
+//@   ensures keys-not-given-kept: forallS(n, !indom(m, n) ==> argHas[f.Args][n] == old(argHas[f.Args][n]))
+//@   ensures other-objects-kept: argObjectsKept(f.Args)
+//@ func (*FormData).AddWithMap
+//@   modifies argHas
+//@   loop 1
+//@     invariant visited-added: forallS(k, seen(k) ==> argValuesAdded(f.Args, k, m[k]))
+//@     invariant no-pair-dropped: noArgDropped()
+//@     invariant other-objects-kept: argObjectsKept(f.Args)
+//@   loop 2
+//@     invariant index-in-range: rangeindex + 1 <= len(v)
+//@     invariant earlier-keys-added: forallS(j, seen(j) && j != k ==> argValuesAdded(f.Args, j, m[j]))
+//@     invariant values-so-far-added: forall(i, 0, rangeindex + 1, argHas[f.Args][k][v[i]])
+//@     invariant no-pair-dropped: noArgDropped()
+//@     invariant other-objects-kept: argObjectsKept(f.Args)
+//@   ensures every-given-value-added: forallS(k, indom(m, k) ==> argValuesAdded(f.Args, k, m[k]))
+//@   ensures no-pair-dropped: noArgDropped()
+//@   ensures other-objects-kept: argObjectsKept(f.Args)
+
+//@ macro formKind(r_) = r_.body == nil && r_.bodyType == ite(old(r_.bodyType) == filesBody, filesBody, formBody)
+//@ func (*Request).AddFormData
+//@   modifies argHas, r.body, r.bodyType
+//@   ensures pair-added: argHas[r.formData.Args][key][val] && result == r
+//@   ensures no-pair-dropped: noArgDropped()
+//@   ensures nothing-else-added: onlyArgAdded(r.formData.Args, key, val)
+//@   ensures body-kind-is-form-unless-files: formKind(r)
+//@ func (*Request).SetFormData
+//@   modifies argHas, r.body, r.bodyType
+//@   ensures key-has-exactly-this-value: argOnly(r.formData.Args, key, val) && result == r
+//@   ensures other-keys-kept: argOthersKept(r.formData.Args, key)
+//@   ensures body-kind-is-form-unless-files: formKind(r)
+//@ func (*Request).SetFormDataWithMap
+//@   modifies argHas, r.body, r.bodyType
+//@   ensures every-given-field-set: forallS(k, indom(m, k) ==> argOnly(r.formData.Args, k, m[k])) && result == r
+//@   ensures keys-not-given-kept: forallS(n, !indom(m, n) ==> argHas[r.formData.Args][n] == old(argHas[r.formData.Args][n]))
+//@   ensures other-objects-kept: argObjectsKept(r.formData.Args)
+//@   ensures body-kind-is-form-unless-files: formKind(r)
+//@ func (*Request).AddFormDataWithMap
+//@   modifies argHas, r.body, r.bodyType
+//@   ensures every-given-value-added: forallS(k, indom(m, k) ==> argValuesAdded(r.formData.Args, k, m[k])) && result == r
+//@   ensures no-pair-dropped: noArgDropped()
+//@   ensures other-objects-kept: argObjectsKept(r.formData.Args)
+//@   ensures body-kind-is-form-unless-files: formKind(r)
+//@ func (*Request).DelFormData
+//@   modifies argHas, r.body, r.bodyType
+//@   ensures named-gone: argNamedGone(r.formData.Args, key, len(key)) && result == r
+//@   ensures unnamed-kept: argUnnamedKept(r.formData.Args, key, len(key))
+//@   ensures other-objects-kept: argObjectsKept(r.formData.Args)
+//@   ensures body-kind-is-form-unless-files: formKind(r)
+
+// ---------------------------------------------------------------------------------------------
+// Files
+// ---------------------------------------------------------------------------------------------
+// AddFiles(files...): the given files are appended in order behind the ones already there; the body kind
+// becomes filesBody (a files body is never demoted by later form data: resetBody).
+//@ func (*Request).AddFiles
+//@   modifies r.files, r.body, r.bodyType, heap(E_p_client_File)
+//@   ensures appended-length: len(r.files) == old(len(r.files)) + len(files) && result == r
+// (the given files as they were at entry: the variadic slice may share its array with r.files)
+//@   ensures appended-in-order: forall(j, old(len(r.files)), len(r.files), r.files[j] == old(files[j - len(r.files)]))
+//@   ensures earlier-files-kept: forall(i, 0, old(len(r.files)), r.files[i] == old(r.files[i]))
+//@   ensures body-kind-is-files: r.body == nil && r.bodyType == filesBody
+//@ func (*File).SetName
+//@   modifies f.name
+//@   ensures f.name == n
+//@ func (*File).SetFieldName
+//@   modifies f.fieldName
+//@   ensures f.fieldName == n
+//@ func (*File).SetPath
+//@   modifies f.path
+//@   ensures f.path == p
+//@ func (*File).SetReader
+//@   modifies f.reader
+//@   ensures f.reader == r
+//@ func (*File).Reset
+//@   modifies f.name, f.fieldName, f.path, f.reader
+//@   ensures blank: f.name == "" && f.fieldName == "" && f.path == "" && f.reader == nil
+
+// ---------------------------------------------------------------------------------------------
+// Get / Post / ... : method and URL are set, nothing else of the configuration changes, then Send
+// ---------------------------------------------------------------------------------------------
+// (Send has no contract: it runs user hooks. What is checked is the state Send is entered with.)
+//@ macro restOfRequestKept(r_) = r_.userAgent == old(r_.userAgent) && r_.referer == old(r_.referer) && r_.timeout == old(r_.timeout) && r_.maxRedirects == old(r_.maxRedirects) && r_.body == old(r_.body) && r_.bodyType == old(r_.bodyType) && r_.boundary == old(r_.boundary) && r_.header == old(r_.header) && r_.params == old(r_.params) && r_.cookies == old(r_.cookies) && r_.path == old(r_.path) && r_.formData == old(r_.formData) && r_.files == old(r_.files) && r_.client == old(r_.client) && r_.RawRequest == old(r_.RawRequest) && r_.ctx == old(r_.ctx)
+//@ func (*Request).Get
+//@   atcall (*Request).Send: sends-get-to-url: r.method == "GET" && r.url == old(url)
+//@   atcall (*Request).Send: rest-untouched: restOfRequestKept(r)
+//@ func (*Request).Post
+//@   atcall (*Request).Send: sends-post-to-url: r.method == "POST" && r.url == old(url)
+//@   atcall (*Request).Send: rest-untouched: restOfRequestKept(r)
+//@ func (*Request).Head
+//@   atcall (*Request).Send: sends-head-to-url: r.method == "HEAD" && r.url == old(url)
+//@   atcall (*Request).Send: rest-untouched: restOfRequestKept(r)
+//@ func (*Request).Put
+//@   atcall (*Request).Send: sends-put-to-url: r.method == "PUT" && r.url == old(url)
+//@   atcall (*Request).Send: rest-untouched: restOfRequestKept(r)
+//@ func (*Request).Delete
+//@   atcall (*Request).Send: sends-delete-to-url: r.method == "DELETE" && r.url == old(url)
+//@   atcall (*Request).Send: rest-untouched: restOfRequestKept(r)
+//@ func (*Request).Options
+//@   atcall (*Request).Send: sends-options-to-url: r.method == "OPTIONS" && r.url == old(url)
+//@   atcall (*Request).Send: rest-untouched: restOfRequestKept(r)
+//@ func (*Request).Patch
+//@   atcall (*Request).Send: sends-patch-to-url: r.method == "PATCH" && r.url == old(url)
+//@   atcall (*Request).Send: rest-untouched: restOfRequestKept(r)
+//@ func (*Request).Custom
+//@   atcall (*Request).Send: sends-given-method-to-url: r.method == old(method) && r.url == old(url)
+//@   atcall (*Request).Send: rest-untouched: restOfRequestKept(r)
+
+// ---------------------------------------------------------------------------------------------
+// Config (the axios-style short cuts Client.Get(url, Config{...})): each field lands in the request state
+// through the setter of that state; body priority Body > FormData > File.
+// ---------------------------------------------------------------------------------------------
+//@ macro cfg0() = config[0]
+//@ func setConfigToRequest
+//@   requires request-made: hasMaps(req)
+//@   modifies req.ctx, req.userAgent, req.referer, req.timeout, req.maxRedirects, req.body, req.bodyType, req.files, heap(E_p_client_File), rhLine, rqHdrHas, argHas, heap(MD_string_string), heap(MV_string_string)
+//@   ensures no-config-no-change: len(config) == 0 ==> req.userAgent == old(req.userAgent) && req.referer == old(req.referer) && req.timeout == old(req.timeout) && req.maxRedirects == old(req.maxRedirects) && req.body == old(req.body) && req.bodyType == old(req.bodyType) && req.files == old(req.files) && rhLine == old(rhLine) && argHas == old(argHas)
+//@   ensures user-agent: len(config) > 0 ==> req.userAgent == ite(old(cfg0().UserAgent) != "", old(cfg0().UserAgent), old(req.userAgent))
+//@   ensures referer: len(config) > 0 ==> req.referer == ite(old(cfg0().Referer) != "", old(cfg0().Referer), old(req.referer))
+//@   ensures timeout: len(config) > 0 ==> req.timeout == ite(old(cfg0().Timeout) != 0, old(cfg0().Timeout), old(req.timeout))
+//@   ensures max-redirects: len(config) > 0 ==> req.maxRedirects == ite(old(cfg0().MaxRedirects) != 0, old(cfg0().MaxRedirects), old(req.maxRedirects))
+//@   ensures body-first: len(config) > 0 && old(cfg0().Body) != nil ==> req.body == old(cfg0().Body) && req.bodyType == jsonBody && req.files == old(req.files)
+//@   ensures then-form-data: len(config) > 0 && old(cfg0().Body) == nil && old(cfg0().FormData) != nil ==> req.body == nil && req.bodyType == ite(old(req.bodyType) == filesBody, filesBody, formBody) && req.files == old(req.files)
+//@   ensures then-files: len(config) > 0 && old(cfg0().Body) == nil && old(cfg0().FormData) == nil && old(len(cfg0().File)) != 0 ==> req.body == nil && req.bodyType == filesBody && len(req.files) == old(len(req.files)) + old(len(cfg0().File))
+//@   ensures no-body-configured: len(config) > 0 && old(cfg0().Body) == nil && old(cfg0().FormData) == nil && old(len(cfg0().File)) == 0 ==> req.body == old(req.body) && req.bodyType == old(req.bodyType) && req.files == old(req.files)
+//@   requires own-maps: *req.cookies != *req.path && req.params.Args != req.formData.Args
+// (the values the maps of the Config held at entry; a Config map that IS one of the request's own maps is excluded)
+//@   ensures headers: len(config) > 0 && old(cfg0().Header) != nil ==> forallS(k, old(indom(cfg0().Header, k)) && old(hdrKeyAlone(cfg0().Header, k)) ==> hdrOnly(req.header.RequestHeader, k, old(cfg0().Header[k])))
+//@   ensures query-parameters: len(config) > 0 && old(cfg0().Param) != nil ==> forallS(k, old(indom(cfg0().Param, k)) ==> argOnly(req.params.Args, k, old(cfg0().Param[k])))
+//@   ensures cookies: len(config) > 0 && old(cfg0().Cookie) != nil && old(cfg0().Cookie) != *req.path ==> forallS(k, old(indom(cfg0().Cookie, k)) ==> indom(*req.cookies, k) && (*req.cookies)[k] == old(cfg0().Cookie[k]))
+//@   ensures path-parameters: len(config) > 0 && old(cfg0().PathParam) != nil && old(cfg0().PathParam) != *req.cookies ==> forallS(k, old(indom(cfg0().PathParam, k)) ==> indom(*req.path, k) && (*req.path)[k] == old(cfg0().PathParam[k]))
+
+// ---------------------------------------------------------------------------------------------
+// NewWithClient / New: what a fresh client is wired with
+// ---------------------------------------------------------------------------------------------
+// The request is assembled by exactly the three functions under contract in part 2, in this order (URL, header,
+// body); the response hooks are the cookie parser and the logger; the configuration starts empty.
+//@ macro hooksWired(x_) = len(x_.builtinRequestHooks) == 3 && x_.builtinRequestHooks[0] == parserRequestURL && x_.builtinRequestHooks[1] == parserRequestHeader && x_.builtinRequestHooks[2] == parserRequestBody
+//@ macro respHooksWired(x_) = len(x_.builtinResponseHooks) == 2 && x_.builtinResponseHooks[0] == parserResponseCookie && x_.builtinResponseHooks[1] == logger
+//@ macro unconfigured(x_) = x_.userAgent == "" && x_.referer == "" && x_.baseURL == "" && x_.timeout == 0 && x_.cookieJar == nil && len(x_.userRequestHooks) == 0 && len(x_.userResponseHooks) == 0
+//@ macro ownEmptyMaps(x_) = hasMaps(x_) && *x_.cookies != *x_.path && forallS(k_, !indom(*x_.cookies, k_) && !indom(*x_.path, k_))
+//@ macro defaultMarshal(x_) = x_.jsonMarshal == json.Marshal && x_.xmlMarshal == xml.Marshal && x_.cborMarshal == cbor.Marshal
+//@ func NewWithClient
+//@   requires client-given: c != nil
+//@   ensures assembly-hooks-installed-in-order: hooksWired(result)
+//@   ensures response-hooks-installed: respHooksWired(result)
+//@   ensures starts-unconfigured: unconfigured(result)
+//@   ensures own-maps: ownEmptyMaps(result)
+//@   ensures wraps-the-given-client: result.fasthttp == c
+//@   ensures default-marshal-functions: defaultMarshal(result)
+//@ func New
+//@   ensures assembly-hooks-installed-in-order: hooksWired(result)
+//@   ensures response-hooks-installed: respHooksWired(result)
+//@   ensures starts-unconfigured: unconfigured(result)
+//@   ensures own-maps: ownEmptyMaps(result)
+//@   ensures default-marshal-functions: defaultMarshal(result)
